@@ -453,7 +453,7 @@ def grid(name, tier, rng):
     elif name in ("conv2d", "max_pool2d", "avg_pool2d", "unfold", "fold"):
         pool = "pool" in name
         g1 = geo1d(6 if not th else 7, pool=pool)
-        n = 200 if not th else 1500
+        n = 200 if not th else 6000
         for i in range(n):
             (H, kh, sh, ph, dh) = g1[int(rng.integers(len(g1)))]
             (W, kw, sw, pw, dw) = g1[int(rng.integers(len(g1)))]
